@@ -42,11 +42,4 @@ GenSpec == GenInit /\ [][GenNext]_gvars
 GenTerminal == ~ENABLED GenNext
 PrintSched == GenTerminal => PrintT("SCHED " \o ToJson(sched))
 
-\* scripts for generation (sizes in units of 8192 bytes)
-G_one == [r \in One |-> <<Op("new"), Snd(9), Snd(0), Op("half"), Op("recv"), Op("recv"), Op("recv")>>]
-GS_one == [r \in One |-> <<Op("recv"), Op("recv"), Op("recv"), Snd(3), Snd(10), Ret(0)>>]
-G_two == [r \in Two |-> IF r = 1 THEN <<Op("new"), Snd(3), Snd(2), Op("half"), Op("recv"), Op("recv")>>
-                                ELSE <<Op("new"), Snd(1), Op("half"), Op("recv"), Op("recv"), Op("recv")>>]
-GS_two == [r \in Two |-> IF r = 1 THEN <<Op("recv"), Op("recv"), Op("recv"), Snd(9), Ret(0)>>
-                                 ELSE <<Op("recv"), Snd(2), Op("recv"), Snd(1), Ret(7)>>]
 =============================================================================
